@@ -322,7 +322,14 @@ fn run_one(bin: &str, cfg: &Cfg, programs: &[Vec<u8>]) -> (Vec<String>, Vec<Stri
                     unsafe { libc::kill(pid, libc::SIGCONT) };
                     std::thread::sleep(Duration::from_millis(600));
                     let r = roundtrip(&mut c, &wire::key_only(op::GET, b"ttl", 0, 3).bytes(), 1000);
-                    let st2 = wire::parse_resp(&r).map(|r| r.status).unwrap_or(9);
+                    let mut st2 = wire::parse_resp(&r).map(|r| r.status).unwrap_or(9);
+                    if st2 != 1 {
+                        // on a loaded machine the resumed process may need a moment to run its timer task: one more look
+                        // 0.6 s later (a clock that lost the 2.9 s would still be a second short)
+                        std::thread::sleep(Duration::from_millis(600));
+                        let r = roundtrip(&mut c, &wire::key_only(op::GET, b"ttl", 0, 4).bytes(), 1000);
+                        st2 = wire::parse_resp(&r).map(|r| r.status).unwrap_or(9);
+                    }
                     if st2 != 1 {
                         viols.push((vec!["C20", "C05", "C08"], format!("an item stored with TTL 4 s is still returned after {:.1} s of real time, 2.9 s of which the server process was stopped (status {:#x}): the clock runs slow, not at all, or loses the seconds it was not scheduled", t0.elapsed().as_secs_f32(), st2)));
                     }
